@@ -30,6 +30,10 @@ import TlsModel.Dsa
     xshared 25519|448 PRIV PEER         -> HEX | err:<Exc>   (ECDHKeyExchange.calc_shared_key, X groups)
     dsasign P Q G X Y K DATA            -> R S            (python_dsakey.sign before DER encoding)
     dsaverify P Q G X Y R S DATA        -> true|false     (python_dsakey.verify after DER decoding)
+    dsasignbytes P Q G X Y K DATA       -> HEX            (python_dsakey.sign, DER included)
+    dsaverifybytes P Q G X Y SIG DATA   -> true|false   (python_dsakey.verify on bytes)
+    derint N | derlen N                 -> HEX            (ecdsa.der.encode_integer / encode_length)
+    derremint HEX | derremseq HEX       -> VALUE REST | BODY REST | err:UnexpectedDER
     guard ske|skeecdsa|cv|cv13 SIG VERIFY(0|1) [BASELEN BYTES] -> send HEX | abort
          (the key object is scripted: sign returns SIG, verify returns VERIFY)
 -/
@@ -108,6 +112,24 @@ def handleDh : List String → Option String
     let key : Tls.Dsa.Key := { p := ← num p, q := ← num q, g := ← num g, x := ← num x, y := ← num y }
     if key.p = 0 ∨ key.q = 0 then none else
     some (boolOut (Tls.Dsa.verifyRS key (← num r) (← num s) (← ofHex data)))
+  | ["dsasignbytes", p, q, g, x, y, k, data] => do
+    let key : Tls.Dsa.Key := { p := ← num p, q := ← num q, g := ← num g, x := ← num x, y := ← num y }
+    if key.p = 0 ∨ key.q = 0 then none else
+    some (hexOut (Tls.Dsa.sign key (← num k) (← ofHex data)))
+  | ["dsaverifybytes", p, q, g, x, y, sig, data] => do
+    let key : Tls.Dsa.Key := { p := ← num p, q := ← num q, g := ← num g, x := ← num x, y := ← num y }
+    if key.p = 0 ∨ key.q = 0 then none else
+    some (boolOut (Tls.Dsa.verify key (← ofHex sig) (← ofHex data)))
+  | ["derint", n] => do some (hexOut (Tls.Der.encodeInteger (← num n)))
+  | ["derlen", n] => do some (hexOut (Tls.Der.encodeLength (← num n)))
+  | ["derremint", s] => do
+    match Tls.Der.removeInteger (← ofHex s) with
+    | .ok (v, rest) => some (numOut v ++ " " ++ hexOut rest)
+    | .error () => some "err:UnexpectedDER"
+  | ["derremseq", s] => do
+    match Tls.Der.removeSequence (← ofHex s) with
+    | .ok (b, rest) => some (hexOut b ++ " " ++ hexOut rest)
+    | .error () => some "err:UnexpectedDER"
   | ["x25519", k, u] => do
     match Tls.X25519.x25519 (← ofHex k) (← ofHex u) with
     | .ok b => some (hexOut b)
